@@ -39,7 +39,8 @@ def cell_msgs(w, rng, p, q):
             "operation": {"halo_swap": {"offer_asset_info": ainfo(p.assets[0]), "ask_asset_info": ainfo(p.assets[1])}},
             "to": rng.choice(["attacker", None])}}, "router"),
         (w.router, "router.assert_minimum_receive", {"assert_minimum_receive": {
-            "asset_info": ainfo(p.assets[0]), "prev_balance": "0", "minimum_receive": "0", "receiver": "attacker"}}, "router"),
+            "asset_info": ainfo(p.assets[0]), "prev_balance": "0", "minimum_receive": rng.choice(["0", "0", "1", "1000"]),
+            "receiver": "attacker"}}, "router"),
     ]
     for pr in (p, q):
         dn = [a for a in pr.assets if a[0] == "n"]
@@ -47,7 +48,7 @@ def cell_msgs(w, rng, p, q):
         out.append((pr.addr, "pair.update_native_token_decimals", {"update_native_token_decimals": {
             "denom": denom, "asset_decimals": [rng.randrange(19), rng.randrange(19)]}}, ("factory",)))
         out.append((pr.addr, "pair.receive_withdraw", {"receive": {
-            "sender": "attacker", "amount": str(rng.choice([1, 1000, 10 ** 9])), "msg": b64({"withdraw_liquidity": {}})}}, ("lp", pr)))
+            "sender": "attacker", "amount": str(rng.choice([1, 2, 1000, 10 ** 9])), "msg": b64({"withdraw_liquidity": {}})}}, ("lp", pr)))
         for off in pr.assets:
             amt = rng.choice([1, 1000, 10 ** 6])
             out.append((pr.addr, "pair.receive_swap", {"receive": {
@@ -121,7 +122,7 @@ def do_cell(acc, w, phase, role, caller, target, name, msg, auth, owner, via="di
 
 def real_send_cells(acc, w, phase, p, owner):
     """hooks delivered by a REAL cw20 Send from tokens that are not the authorised origin"""
-    amt = 1000
+    amt = max(1, min(1000, w.ledger.get(p.addr, p.lp) // 2)) if w.ledger.get(p.addr, p.lp) > 1 else 1000
     sends = []
     swap_hook = lambda off: b64({"swap": {"offer_asset": {"info": ainfo(off), "amount": str(amt)}, "belief_price": None,
                                            "max_spread": None, "to": None}})
@@ -239,6 +240,15 @@ def run_world(acc, srv, key):
     owner, former = "owner", None
     for phase in ("before_transfer", "after_transfer"):
         p, q_ = rng.sample(w.pairs, 2)
+        # park stray LP (and some of each asset) on the pairs themselves: hooks that would otherwise die at the
+        # final burn/transfer can then take effect if an origin check is missing
+        for pr in (p, q_):
+            holders = [x for x in ACTORS if w.ledger.get(x, pr.lp) >= 4]
+            if holders:
+                h = rng.choice(holders)
+                amt = max(1, w.ledger.get(h, pr.lp) // rng.choice([2, 4, 10]))
+                st = w.step(w.op_lp_transfer(h, pr, pr.addr, amt))
+                acc.count("lp_parked_on_pair" if st.ok else "lp_park_failed")
         msgs = cell_msgs(w, rng, p, q_)
         for role, caller in callers(w, p, q_, owner, former):
             for target, name, msg, auth in msgs:
